@@ -339,3 +339,29 @@ func pointerOffsetBuffers() [][]byte {
 	}
 	return out
 }
+
+
+// labelCumulativeBuffers: many names that are each well within the 255-octet limit but add up far beyond it — ended by
+// a root octet, by a pointer to one shared suffix, or alternating — so that a length counter that survives from one
+// name to the next (in any of the ways a name can end) rejects a valid list. STRICT by construction.
+func labelCumulativeBuffers() [][]byte {
+	var out [][]byte
+	suffix := []byte{7, 'e', 'x', 'a', 'm', 'p', 'l', 'e', 3, 'o', 'r', 'g', 0}
+	for _, per := range []int{20, 50, 63} {
+		for _, count := range []int{2, 4, 6, 12} {
+			for mode := 0; mode < 3; mode++ {
+				b := append([]byte{}, suffix...) // offset 0: the shared suffix as a name of its own
+				for i := 0; i < count; i++ {
+					b = append(append(b, byte(per)), bytes.Repeat([]byte{byte('a' + i%26)}, per)...)
+					if mode == 0 || (mode == 2 && i%2 == 0) {
+						b = append(b, 0xC0, 0)
+					} else {
+						b = append(b, 0)
+					}
+				}
+				out = append(out, b)
+			}
+		}
+	}
+	return out
+}
